@@ -547,7 +547,9 @@ class Evaluator:
             # bindings of the left operand are visible on the right
             for pat, scrut in bl:
                 self._bind(pat, scrut, self.st.env)
+            self.pc.append(("if", l, True, n["id"]))       # short-circuit: the right operand is only evaluated when the left holds
             r, br = self.cond(n["r"])
+            self.pc.pop()
             return ("bin", "&&", l, r), bl + br
         return self.expr(n), []
 
